@@ -1552,6 +1552,8 @@ class Run:
         if isinstance(v, VBytes):
             b = zbytes_to_py(z3.simplify(v.t))
             if b is None:
+                if self.ghost.get("utf8_fn"):
+                    return iter([self.engine.models.VByteRun(v.t)])
                 raise Unsupported("iteration over symbolic bytes")
             return iter([VInt(int, x) for x in b])
         if isinstance(v, VObj):
